@@ -232,7 +232,10 @@ def typo(name):
 
 
 INT_VALUES = [('2x0', True), ('1.5', True), ('', True), ('99999999999999999999', True), ('-', True), ('3 4', True), ('+', True),
-              ('0x3', True), ('1e1', True)]
+              ('0x3', True), ('1e1', True),
+              # the length of the text selects the branch of PropertyList::fromXML (shorter than / as long as / longer than LONG_MAX = 19 digits)
+              ('2x0000000000000000', True), ('2x00000000000000000', True), ('2 steps for a check', True), ('2.00000000000000000', True),
+              ('2abcdefghijklmnopqr', True), ('9x23372036854775807', True), ('2x000000000000000000', True), ('9223372036854775808', True)]
 DOUBLE_VALUES = [('1e-5x', True), ('abc', True), ('1..2', True), ('1e', True), ('--1', True), ('', True), ('1,5', True), ('.', True),
                  ('0x', True), ('1e+', True), ('infinit', True), ('nan(', True)]
 BOOL_VALUES = [('maybe', True), ('YES', True), ('', True), (' yes', True), ('2', True), ('True', True)]
@@ -305,6 +308,7 @@ def enumerate_mutants(bname, sc, tables, allow):
             vals = []
             if ty == 'int':
                 vals = INT_VALUES + [(' %s ' % old, False), ('+' + old if not old.startswith('-') else old, False),
+                                     (old.zfill(19), False) if not old.startswith('-') else (old, False),   # 19 characters: the LONG_MAX-length branch
                                      (str(int(old) + 2 ** 32), None), (str(2 ** 31), None)]
             elif ty == 'double':
                 vals = DOUBLE_VALUES + [(' %s ' % old, False), ('%se0' % old, False), ('0x10', None), ('nan', None), ('inf', None),
